@@ -1222,8 +1222,9 @@ def _check_invs(ex, st, spec: Loop, kind, fname, ordinal, extra_env=None):
         ex.oblige(st, f"{fname}.loop{ordinal}.{kind}.inv{i}", f"loop-{kind}", t, info={"clause": inv})
 
 
-def _check_steps(ex, st, spec: Loop, fname, ordinal):
+def _check_steps(ex, st, spec: Loop, fname, ordinal, outcome="normal"):
     env = {**getattr(ex, "cur_env", {}), **st.fr.env}
+    env["_outcome"] = outcome  # how this iteration ended: 'normal' | 'continue' | 'break' | 'return'
     for name, clause in spec.step:
         t = eval_spec(ex, st, clause, env, what=f"{fname}.loop{ordinal}.{name}")
         ex.oblige(st, f"{fname}.loop{ordinal}.step.{name}", "loop-step", t, info={"clause": clause})
@@ -1523,16 +1524,16 @@ def _cut_for(ex, node, st, it):
             for st3, out in ex.run_block(node.body, st2):
                 _frame_check(ex, st3, before, spec, fname, ordinal, attrs)
                 if out[0] in ("normal", "continue"):
-                    _check_steps(ex, st3, spec, fname, ordinal)
+                    _check_steps(ex, st3, spec, fname, ordinal, out[0])
                     _check_invs(ex, st3, spec, "preserve", fname, ordinal, {"_i": SV("int", i + 1)})
                 elif out[0] == "break":
-                    _check_steps(ex, st3, spec, fname, ordinal)  # an iteration that ends in break is an iteration
+                    _check_steps(ex, st3, spec, fname, ordinal, "break")  # an iteration that ends in break is an iteration
                     st3.ghost = dict(st3.ghost)
                     st3.ghost["loops"] = st3.ghost.get("loops", ()) + ((ordinal, False),)
                     yield st3, ("normal", None)
                 else:
                     if out[0] == "return":
-                        _check_steps(ex, st3, spec, fname, ordinal)  # ... and so is one that ends in return
+                        _check_steps(ex, st3, spec, fname, ordinal, "return")  # ... and so is one that ends in return
                     yield st3, out
 
 
